@@ -397,5 +397,4 @@ def selftest():
     s = RecStream('abcdefgh', short=1)
     assert s.read(4) == 'abc' and s.read(4) == 'def' and s.pos == 6 and s.maxreq == 4
     t, ends, n = make_stream((0, 10), 0, 4096)
-    assert t.count('---') == 2 and ends[0] == 4 and list(yaml.safe_load_all(t)) == [None, ['item']]
-    assert measure_block(yaml.SafeLoader) == 4096
+    assert t.count('---') == 2 and ends[0] == 4 and t == '---\n---\n- item\n'
